@@ -107,6 +107,15 @@ def run_sequential(case):
             err = "%s: %s" % (type(ex).__name__, str(ex)[:120])
             break
         shifts[id(sect)] = shift + sum(bi.size for bi in sect.byte_intervals) - total0
+    if err is None and case.get("retargets"):
+        # retarget_symbol_uses takes effect at the end of apply(): one at a time it is a context of its own, last
+        try:
+            ctx = RewritingContext(B.m, gtirb_functions.Function.build_functions(B.m))
+            for a, b in case["retargets"]:
+                ctx.retarget_symbol_uses(next(y for y in B.m.symbols if y.name == a), next(y for y in B.m.symbols if y.name == b))
+            ctx.apply()
+        except Exception as ex:  # noqa: BLE001
+            err = "%s: %s" % (type(ex).__name__, str(ex)[:120])
     return B, err
 
 
@@ -350,6 +359,8 @@ def run(ctx):
         case = emodify.gen_case(ctx.rng, cfg_domain=True)
         if n % 4 == 0:
             case = aim_at_cached_references(case, ctx.rng)
+        if n % 7 == 3:
+            emodify.add_retargets(ctx.rng, case)       # retarget_symbol_uses registered in the same context
         check_case(ctx, case)
 
 
